@@ -199,22 +199,36 @@ def coq_eval(name, body, timeout=900):
     return out
 
 
-def coq_eval_sharded(prefix, header, items, per_file=250, timeout=900, jobs=16):
+def coq_eval_sharded(prefix, header, items, per_file=250, timeout=900, jobs=16, balance=False):
     """items: list of Gallina command strings (one 'Eval vm_compute in ... .' each).  Returns list of
-    result strings, one per item, in order (the text after '= ' up to the type annotation)."""
+    result strings, one per item, in order (the text after '= ' up to the type annotation).
+    balance=True: distribute items over [jobs] files by size (longest first), for items of very different cost."""
     from concurrent.futures import ThreadPoolExecutor
-    shards = [items[i:i + per_file] for i in range(0, len(items), per_file)]
+    if balance:
+        nsh = max(1, min(jobs, len(items)))
+        order = sorted(range(len(items)), key=lambda i: -len(items[i]))
+        bins = [[] for _ in range(nsh)]
+        load = [0] * nsh
+        for i in order:
+            k = load.index(min(load))
+            bins[k].append(i)
+            load[k] += len(items[i]) ** 2 // 1000 + len(items[i])
+        index_shards = [b for b in bins if b]
+    else:
+        index_shards = [list(range(i, min(len(items), i + per_file))) for i in range(0, len(items), per_file)]
 
     def work(k):
-        out = coq_eval(f"{prefix}_{k}", header + "\n" + "\n".join(shards[k]) + "\n", timeout)
+        idxs = index_shards[k]
+        out = coq_eval(f"{prefix}_{k}", header + "\n" + "\n".join(items[i] for i in idxs) + "\n", timeout)
         res = parse_evals(out)
-        if len(res) != len(shards[k]):
-            raise CoqError(f"cases {prefix}_{k}: expected {len(shards[k])} results, got {len(res)}\n{out[-2000:]}")
+        if len(res) != len(idxs):
+            raise CoqError(f"cases {prefix}_{k}: expected {len(idxs)} results, got {len(res)}\n{out[-2000:]}")
         return res
-    results = []
+    results = [None] * len(items)
     with ThreadPoolExecutor(max_workers=jobs) as ex:
-        for r in ex.map(work, range(len(shards))):
-            results.extend(r)
+        for idxs, r in zip(index_shards, ex.map(work, range(len(index_shards)))):
+            for i, v in zip(idxs, r):
+                results[i] = v
     return results
 
 
